@@ -308,7 +308,7 @@ func genBl(rt *rapid.T, n int) ([]uint64, string) {
 }
 
 func TestEquivocationSessions(t *testing.T) {
-	vk.Check(t, 1600, 120000, func(rt *rapid.T, c *vk.Case) {
+	vk.Check(t, 1600, 60000, func(rt *rapid.T, c *vk.Case) {
 		n := rapid.IntRange(3, 22).Draw(rt, "n")
 		bl, mode := genBl(rt, n)
 		// equivocation events
